@@ -13,7 +13,8 @@ Open Scope N_scope.
 
 Record wcfg := mkWcfg {
   wc_server : bool;      (* c.isServer *)
-  wc_buf : N             (* len(c.writeBuf) = configured write buffer size + maxFrameHeaderSize *)
+  wc_buf : N;            (* len(c.writeBuf) = configured write buffer size + maxFrameHeaderSize *)
+  wc_compress : bool     (* c.newCompressionWriter != nil && c.enableWriteCompression *)
 }.
 
 (* bytes of payload that fit in the buffer after the header area *)
@@ -132,9 +133,9 @@ Definition write_stream (cfg : wcfg) (keys : list bytes) (typ : N) (cs : list ch
     | inr e => inr e
     end.
 
-(* WriteMessage(typ, data) without write compression *)
+(* WriteMessage(typ, data) for messages that do not go through the flate writer *)
 Definition write_message (cfg : wcfg) (keys : list bytes) (typ : N) (data : bytes) : (bytes * list bytes) + werr :=
-  if wc_server cfg then
+  if wc_server cfg && negb (wc_compress cfg) then
     (* fast path: one frame, the part that does not fit in the buffer goes out as `extra` *)
     if negb (is_control_type typ) && negb (is_data_type typ) then inr WeBadType
     else
@@ -156,13 +157,56 @@ Definition write_control (cfg : wcfg) (keys : list bytes) (typ : N) (data : byte
          inl ([b0; N.of_nat (length data) + c_maskBit] ++ key ++ xor_mask key 0 data, keys').
 
 (* PreparedMessage.frame(key): WriteMessage on a private Conn with the default write buffer *)
-Definition prepared_cfg (cfg : wcfg) : wcfg := mkWcfg (wc_server cfg) (c_defaultWriteBufferSize + c_maxFrameHeaderSize).
+Definition prepared_cfg (cfg : wcfg) : wcfg :=
+  mkWcfg (wc_server cfg) (c_defaultWriteBufferSize + c_maxFrameHeaderSize) (wc_compress cfg).
+
+(* ---- extension: permessage-deflate on the write side.  compress/flate is a parameter: the model is
+   given the chunks the flate.Writer handed to its destination (during Write and the final Flush). *)
+
+(* truncWriter.Write: everything but the last four bytes of the stream goes downstream *)
+Definition trunc_write (held p : bytes) : list bytes * bytes :=
+  let n := Nat.min (4 - List.length held) (List.length p) in
+  let held1 := held ++ firstn n p in
+  let p1 := skipn n p in
+  match p1 with
+  | [] => ([], held1)
+  | _ =>
+      let m := Nat.min (List.length p1) 4 in
+      ([firstn m held1; firstn (List.length p1 - m) p1], skipn m held1 ++ skipn (List.length p1 - m) p1)
+  end.
+
+Fixpoint trunc_all (held : bytes) (zs : list bytes) : list bytes * bytes :=
+  match zs with
+  | [] => ([], held)
+  | z :: zs' =>
+      let '(d, held1) := trunc_write held z in
+      let '(ds, held2) := trunc_all held1 zs' in
+      (d ++ ds, held2)
+  end.
+
+Definition flate_sync_tail : bytes := [0; 0; 255; 255].
+
+(* NextWriter(typ) with compression; the application's writes went through flate (chunks zs); Close() *)
+Definition write_stream_z (cfg : wcfg) (keys : list bytes) (typ : N) (zs : list bytes) : (bytes * list bytes) + werr :=
+  let '(downs, held) := trunc_all [] zs in
+  match feed_all cfg keys (mkMw [] typ true) (map CWrite downs) [] with
+  | inl (wire, keys', w) =>
+      if negb (if list_eq_dec N.eq_dec held flate_sync_tail then true else false) then inr WeInternal
+      else
+        match flush_frame cfg keys' w true [] with
+        | inl (fr, keys'', _) => inl (wire ++ fr, keys'')
+        | inr e => inr e
+        end
+  | inr e => inr e
+  end.
 
 Inductive wop :=
 | OpMessage (typ : N) (data : bytes)                     (* c.WriteMessage *)
 | OpStream (typ : N) (cs : list chunk)                   (* c.NextWriter + Write.../WriteString/ReadFrom + Close *)
 | OpControl (typ : N) (data : bytes)                     (* c.WriteControl *)
-| OpPrepared (typ : N) (data : bytes) (pkeys : list bytes). (* c.WritePreparedMessage; pkeys = keys drawn when the frame was prepared *)
+| OpPrepared (typ : N) (data : bytes) (pkeys : list bytes) (* c.WritePreparedMessage; pkeys = keys drawn when the frame was prepared *)
+| OpZ (typ : N) (data : bytes) (zs : list bytes)         (* a text/binary message written through the flate writer (WriteMessage or NextWriter...Close) *)
+| OpPreparedZ (typ : N) (data : bytes) (zs : list bytes) (pkeys : list bytes).
 
 (* one operation on a connection; sent = a close frame has been written (writeErr = ErrCloseSent) *)
 Definition write_op (cfg : wcfg) (keys : list bytes) (sent : bool) (o : wop) : bytes * list bytes * bool * option werr :=
@@ -170,14 +214,28 @@ Definition write_op (cfg : wcfg) (keys : list bytes) (sent : bool) (o : wop) : b
   else
     let '(r, typ) :=
         match o with
-        | OpMessage typ data => (write_message cfg keys typ data, typ)
-        | OpStream typ cs => (write_stream cfg keys typ cs, typ)
+        | OpMessage typ data =>
+            (if wc_compress cfg && is_data_type typ then inr WeInternal     (* goes through flate: OpZ *)
+             else write_message cfg keys typ data, typ)
+        | OpStream typ cs =>
+            (if wc_compress cfg && is_data_type typ then inr WeInternal
+             else write_stream cfg keys typ cs, typ)
         | OpControl typ data => (write_control cfg keys typ data, typ)
         | OpPrepared typ data pkeys =>
-            (match write_message (prepared_cfg cfg) pkeys typ data with
-             | inl (fr, _) => inl (fr, keys)
-             | inr e => inr e
-             end, typ)
+            (if wc_compress cfg && is_data_type typ then inr WeInternal
+             else match write_message (prepared_cfg cfg) pkeys typ data with
+                  | inl (fr, _) => inl (fr, keys)
+                  | inr e => inr e
+                  end, typ)
+        | OpZ typ data zs =>
+            (if wc_compress cfg && is_data_type typ then write_stream_z cfg keys typ zs else inr WeInternal, typ)
+        | OpPreparedZ typ data zs pkeys =>
+            (if wc_compress cfg && is_data_type typ then
+               match write_stream_z (prepared_cfg cfg) pkeys typ zs with
+               | inl (fr, _) => inl (fr, keys)
+               | inr e => inr e
+               end
+             else inr WeInternal, typ)
         end in
     match r with
     | inl (wire, keys') => (wire, keys', typ =? c_CloseMessage, None)
